@@ -12,7 +12,8 @@ ID = "C06"
 LEVEL = "exploration"
 CGF_RUNS = {"thorough": 3000}  # coverage-guided stage (vlib/cgf.py): libFuzzer executions per worker, 16 workers
 RULE = (
-    "A rule `mov: [..., $deref {fields}]` (deref at operand position 1 or 2) for drawn reference components (base: 16 GPRs at 64/32 bit or %rip; index; scale 1/2/4/8; "
+    "A rule `<mnemonic>: [..., $deref {fields}]` (deref at operand position 1 or 2; the instruction is mov, lea, add, cmp or a scalar SSE instruction - sqrtss, comiss, "
+    "cvtsd2ss ... - with an xmm register as the other operand) for drawn reference components (base: 16 GPRs at 64/32 bit or %rip; index; scale 1/2/4/8; "
     "displacement zero/small/large/negative) with each of the 8 present/absent combinations of register_multiplier / constant_multiplier / constant_offset and drawn "
     "spellings (with/without %, with/without 0x, YAML int vs string) is matched in all-matches mode against a listing of 8-28 candidate instructions, each a one-step "
     "perturbation of the reference (same; base/index/scale/displacement changed, incl. prefix/extension displacements; a component added or removed; base and index swapped; a "
@@ -24,7 +25,7 @@ ASSUMPTIONS = [
     "constant_multiplier without register_multiplier has no operand with the same present components: it must match nothing (rejecting the rule is accepted)",
     "segment-prefixed and *-operands are outside the statement",
 ]
-FLOORS = {"form=addr16": 0.06, "route=real": 0.3, "route=rendered": 0.3, "cand=same": 0.45, "cand=disp-changed": 0.3, "cand=base-changed": 0.3, "cand=scale-changed": 0.1, "cand=index-changed": 0.1}
+FLOORS = {"mnemonic=ends-in-ss": 0.1, "form=addr16": 0.06, "route=real": 0.3, "route=rendered": 0.3, "cand=same": 0.45, "cand=disp-changed": 0.3, "cand=base-changed": 0.3, "cand=scale-changed": 0.1, "cand=index-changed": 0.1}
 REGS = list(range(16))
 
 
@@ -120,7 +121,10 @@ def cases(draw):
         c["kind"] = kind
         c["reg"] = c.get("reg", draw(st.sampled_from(REGS)))
         cands.append(c)
-    return {"route": route, "addr32": addr32, "fields": fields, "pos": pos, "cands": cands}
+    # the instruction around the operand: what a $deref accepts does not depend on it.  Scalar-single SSE mnemonics end in `ss`
+    # (the letters of a segment prefix) and have 5-8 characters (objdump prints one blank after a mnemonic of 6 or more)
+    mn = draw(st.sampled_from(["mov", "mov", "mov"] + sorted(x86enc.LOAD_FORMS if pos == 1 else x86enc.STORE_FORMS)))
+    return {"route": route, "addr32": addr32, "fields": fields, "pos": pos, "cands": cands, "mn": mn}
 
 
 @st.composite
@@ -168,9 +172,19 @@ def strategy(tier):
     return st.one_of(cases(), cases(), cases(), cases(), cases(), cases(), cases(), addr16_cases())
 
 
-def cand_att(c, addr32):
+def cand_mn(c, mn, pos):
+    """Mnemonic of candidate c: the case's own one where it exists in the direction the candidate needs."""
+    if "special" in c:
+        return "mov"
+    forms = x86enc.LOAD_FORMS if c["pos"] == 1 else x86enc.STORE_FORMS
+    return mn if mn in forms else "mov"
+
+
+def cand_att(c, addr32, mn="mov"):
     """AT&T operand list [op1, op2] of candidate c as objdump would print it."""
     reg = "%" + x86enc.REG64[c["reg"]]
+    if "special" not in c:
+        reg = x86enc.reg_name(mn, c["reg"], store=c["pos"] == 2)
     if "special" in c:
         other = f"$0x{c['imm']:x}" if c["special"] == "immediate" else "%" + x86enc.REG64[(c["reg"] + 3) % 16]
         return [other, reg]
@@ -179,7 +193,7 @@ def cand_att(c, addr32):
     return [mem, reg] if c["pos"] == 1 else [reg, mem]
 
 
-def cand_bytes(c, addr32):
+def cand_bytes(c, addr32, mn="mov"):
     if "special" in c:
         if c["special"] == "immediate":
             r = c["reg"]
@@ -187,7 +201,15 @@ def cand_bytes(c, addr32):
         r, s = c["reg"], (c["reg"] + 3) % 16
         return bytes([0x48 | ((s >> 3) << 2) | (r >> 3), 0x89, 0xC0 | ((s & 7) << 3) | (r & 7)])
     op = "mov-load" if c["pos"] == 1 else "mov-store"
-    return x86enc.encode_mem(op, c["reg"], base=c["base"], index=c["index"], scale=c["scale"], disp=c["disp"], addr32=addr32 and not c["rip"], rip=c["rip"], riz=c.get("riz", False))
+    return x86enc.encode_mem(op, c["reg"], base=c["base"], index=c["index"], scale=c["scale"], disp=c["disp"], addr32=addr32 and not c["rip"], rip=c["rip"], riz=c.get("riz", False),
+                             mn=None if mn == "mov" else mn)
+
+
+def _norm(o):
+    """Normal form of an operand of the candidate instructions: the C09 forms, and vector registers as they are."""
+    import re
+
+    return o if re.match(r"%[xyz]mm[0-9]+\Z", o) else normal_form(o, pseudo_index=True)
 
 
 def evaluate(case):
@@ -196,8 +218,13 @@ def evaluate(case):
     addr32 = case["addr32"]
     fields = case["fields"]
     pos = case["pos"]
-    pattern = [{"mov": ([{"$deref": fields}] if pos == 1 else ["%", {"$deref": fields}])}]
+    mn = case.get("mn", "mov")
+    # candidates that need the other direction (the memory operand at the other position) or have no memory operand are `mov`s: the
+    # rule names what the two spellings share
+    rule_mn = mn if all(cand_mn(c, mn, pos) == mn for c in case["cands"]) else ("mov" if mn.startswith("mov") else "")
+    pattern = [{(rule_mn or "s" if mn.endswith("ss") else rule_mn or "m"): ([{"$deref": fields}] if pos == 1 else ["%", {"$deref": fields}])}]
     ev.tags = [f"route={case['route']}", f"pos={pos}", "fields=" + "".join(k[0] if k != "constant_offset" else "k" for k in sorted(fields))]
+    ev.tags.append("mnemonic=" + ("mov" if mn == "mov" else "ends-in-ss" if mn.endswith("ss") else "other"))
     ev.tags += sorted({f"cand={c['kind']}" for c in case["cands"]})
     if case.get("form") == "addr16":
         ev.tags = ["route=rendered", "form=addr16", f"pos={pos}"] + sorted({f"cand16={c[0]}" for c in case["cands16"]})
@@ -216,16 +243,17 @@ def evaluate(case):
         NV = []
         a = 0x401000
         for c in case["cands"]:
-            att = cand_att(c, addr32)
-            norm = [normal_form(o, pseudo_index=True) for o in att]
+            cmn = cand_mn(c, mn, pos)
+            att = cand_att(c, addr32, cmn)
+            norm = [_norm(o) for o in att]
             if any(n is None for n in norm):
                 continue
-            lines.append(inst_line(format(a, "x"), "mov", att))
-            NV.append((format(a, "x"), "mov", norm))
+            lines.append(inst_line(format(a, "x"), cmn, att))
+            NV.append((format(a, "x"), cmn, norm))
             a += 7
         text = "\n".join(lines) + "\n"
     else:
-        blob = b"".join(cand_bytes(c, addr32) for c in case["cands"])
+        blob = b"".join(cand_bytes(c, addr32, cand_mn(c, mn, pos)) for c in case["cands"])
         path = jasm_io.scratch().write("deref.bin", blob)
         rc, text, _ = disassemble_blob(path)
         NV = []
@@ -235,7 +263,7 @@ def evaluate(case):
                 continue
             toks = [t for t in c[2].split("#")[0].split(" ") if t]
             ops = split_operands(toks[1]) if len(toks) > 1 else []
-            norm = [normal_form(o, pseudo_index=True) for o in ops]
+            norm = [_norm(o) for o in ops]
             if any(n is None for n in norm):
                 ev.tags.append("unspec-operand")
                 return ev
